@@ -423,3 +423,134 @@ theorem parseBatchHeader_regenerated (spec header : Bytes) :
         simp [hne, hne2, Res.sim]
 
 end GitSizer
+
+namespace GitSizer
+open GitSizer.Config
+
+/-- `bytes.IndexByte` and the model's `splitFirst` find the same byte -/
+theorem splitFirst_indexOf (b : UInt8) : ∀ (s : Bytes),
+    (Bytes.indexOf b s = none ∧ splitFirst b s = none) ∨
+    (∃ i, Bytes.indexOf b s = some i ∧ i < s.length ∧ splitFirst b s = some (s.take i, s.drop (i + 1))) := by
+  intro s
+  induction s with
+  | nil => left; simp [Bytes.indexOf, splitFirst]
+  | cons x xs ih =>
+    by_cases hx : x = b
+    · right; exact ⟨0, by simp [Bytes.indexOf, hx], by simp, by simp [splitFirst, hx]⟩
+    · rcases ih with ⟨h1, h2⟩ | ⟨i, h1, h2, h3⟩
+      · left; simp [Bytes.indexOf, splitFirst, hx, h1, h2]
+      · right; exact ⟨i + 1, by simp [Bytes.indexOf, hx, h1], by simp; omega, by simp [splitFirst, hx, h3]⟩
+
+theorem sliceI_take (s : Bytes) (i : Nat) (h : i ≤ s.length) : Go.sliceI s (0 : Int) (i : Int) = .ok (s.take i) := by
+  unfold Go.sliceI Go.slice
+  have h1 : ¬ ((0 : Int) < 0 ∨ (i : Int) < 0) := by omega
+  simp [h1, h]
+
+/-- the entries the model keeps from the raw records -/
+def keepEntries (pfx : Bytes) (recs : List (Bytes × Bytes)) : List (Bytes × Bytes) :=
+  recs.filterMap fun (k, v) =>
+    let (ok, rest) := keyMatchesPrefix k pfx
+    if ok then some (rest, v) else none
+
+theorem getConfig_loop_regenerated (pfx : Bytes) : ∀ (fuel : Nat) (out : Bytes) (acc : List (Bytes × Bytes)),
+    out.length + 1 ≤ fuel →
+    Gen.Strs.GetConfig_records_loop1 pfx fuel out acc =
+      match parseListing fuel out with
+      | some recs => .ok (acc ++ keepEntries pfx recs)
+      | none => .err "error" := by
+  intro fuel
+  induction fuel with
+  | zero => intro out acc h; omega
+  | succ f ih =>
+    intro out acc hf
+    unfold Gen.Strs.GetConfig_records_loop1
+    cases out with
+    | nil => simp [parseListing, keepEntries, pure]
+    | cons x xs =>
+      have hpos : ((x :: xs).length : Int) > 0 := by simp
+      simp only [hpos, if_true, pure, bind, Res.bind]
+      unfold parseListing
+      rcases splitFirst_indexOf NUL (x :: xs) with ⟨h1, h2⟩ | ⟨i, h1, h2, h3⟩
+      · have hib : Go.indexByteI (x :: xs) (0 : UInt8) = -1 := by
+          unfold Go.indexByteI; rw [show (0 : UInt8) = NUL from rfl, h1]
+        simp [hib, h2]
+      · have hib : Go.indexByteI (x :: xs) (0 : UInt8) = (i : Int) := by
+          unfold Go.indexByteI; rw [show (0 : UInt8) = NUL from rfl, h1]
+        have hne : (((i : Int)) == -1) = false := by simp only [beq_eq_false_iff_ne, ne_eq]; omega
+        have hs1 : Go.sliceI (x :: xs) (0 : Int) (i : Int) = .ok ((x :: xs).take i) := sliceI_take _ i (by omega)
+        have hi1 : ((i : Int) + 1) = ((i + 1 : Nat) : Int) := by omega
+        have hs2 : Go.sliceI (x :: xs) ((i : Int) + 1) (((x :: xs).length : Nat) : Int) = .ok ((x :: xs).drop (i + 1)) := by
+          rw [hi1]; exact sliceI_from _ (i + 1) (by omega)
+        rw [hib]
+        simp only [hne, Bool.false_eq_true, if_false, hs1, hs2, h3]
+        generalize hrec : (x :: xs).take i = record at *
+        generalize hrest : (x :: xs).drop (i + 1) = rest at *
+        have hrl : rest.length + 1 ≤ f := by
+          rw [← hrest]; simp only [List.length_drop]; simp at hf h2 ⊢; omega
+        -- key / value
+        rcases splitFirst_indexOf LF record with ⟨k1, k2⟩ | ⟨j, k1, k2, k3⟩
+        · have hkb : Go.indexByteI record (10 : UInt8) = -1 := by
+            unfold Go.indexByteI; rw [show (10 : UInt8) = LF from rfl, k1]
+          have : (((-1 : Int)) != -1) = false := by decide
+          simp only [hkb, this, Bool.false_eq_true, if_false, k2]
+          rw [configKeyMatchesPrefix_regenerated]
+          simp only
+          cases hk : keyMatchesPrefix record pfx with
+          | mk okb restk =>
+            simp only
+            cases okb with
+            | false =>
+              simp only [Bool.not_false, if_true]
+              rw [ih rest acc hrl]
+              cases parseListing f rest with
+              | none => rfl
+              | some l => simp [keepEntries, hk]
+            | true =>
+              simp only [Bool.not_true, Bool.false_eq_true, if_false]
+              rw [ih rest (acc ++ [(restk, [])]) hrl]
+              cases parseListing f rest with
+              | none => rfl
+              | some l => simp [keepEntries, hk]
+        · have hkb : Go.indexByteI record (10 : UInt8) = (j : Int) := by
+            unfold Go.indexByteI; rw [show (10 : UInt8) = LF from rfl, k1]
+          have hjne : (((j : Int)) != -1) = true := by simp
+          have ht1 : Go.sliceI record (0 : Int) (j : Int) = .ok (record.take j) := sliceI_take _ j (by omega)
+          have hj1 : ((j : Int) + 1) = ((j + 1 : Nat) : Int) := by omega
+          have ht2 : Go.sliceI record ((j : Int) + 1) ((record.length : Nat) : Int) = .ok (record.drop (j + 1)) := by
+            rw [hj1]; exact sliceI_from _ (j + 1) (by omega)
+          simp only [hkb, hjne, if_true, ht1, ht2, k3]
+          rw [configKeyMatchesPrefix_regenerated]
+          simp only
+          cases hk : keyMatchesPrefix (record.take j) pfx with
+          | mk okb restk =>
+            simp only
+            cases okb with
+            | false =>
+              simp only [Bool.not_false, if_true]
+              rw [ih rest acc hrl]
+              cases parseListing f rest with
+              | none => rfl
+              | some l => simp [keepEntries, hk]
+            | true =>
+              simp only [Bool.not_true, Bool.false_eq_true, if_false]
+              rw [ih rest (acc ++ [(restk, record.drop (j + 1))]) hrl]
+              cases parseListing f rest with
+              | none => rfl
+              | some l => simp [keepEntries, hk]
+
+/-- **the record loop of `GetConfig`, REGENERATED from git/gitconfig.go, is the model's `getConfig`**:
+    it never panics (every slice is in range, the fuel suffices) and returns exactly the entries the
+    model returns, or an error exactly when the model rejects the listing -/
+theorem getConfig_regenerated (pfx listing : Bytes) :
+    Gen.Strs.GetConfig_records pfx listing =
+      match getConfig listing pfx with
+      | some es => .ok es
+      | none => .err "error" := by
+  unfold Gen.Strs.GetConfig_records getConfig
+  simp only [pure, bind, Res.bind]
+  rw [getConfig_loop_regenerated pfx (listing.length + 1) listing [] (Nat.le_refl _)]
+  cases parseListing (listing.length + 1) listing with
+  | none => rfl
+  | some recs => simp [keepEntries]
+
+end GitSizer
